@@ -159,7 +159,11 @@ class IOBase(Communicator):
         self.is_connected = False
 
     def doPoll(self):
-        self.read_is_connected()
+        if not self.is_connected:
+            # try to reconnect. when connected, do not read: the read wrapper
+            # would announce the value True, which may be outdated when an
+            # other thread just detected the loss of the connection
+            self.read_is_connected()
 
     def read_is_connected(self):
         """try to reconnect, when not connected
